@@ -97,3 +97,44 @@ From KP Require Import XmlText XmlTextProofs.
 Theorem c03_xml_text_roundtrip : forall evs : list ev,
   wf_events evs = true -> lex_xml (render_xml evs) = evs.
 Proof. exact lex_render. Qed.
+
+From KP Require Import SaveOpenText.
+(* what the writer's DumpXml impls emit is always a well-formed event list, for every content in the
+   event-level domain whose strings are XML text (the complement of finding F6a) and whose time-stamp
+   names are XML names *)
+Theorem c03_dump_events_well_formed :
+  forall (gzip : bytes -> bytes) (gunzip : bytes -> option bytes) (c : content) (ks : bytes),
+  wf_content gzip gunzip c = true -> text_content_ok gzip c = true -> bytes_ok ks = true ->
+  wf_events (dump_events gzip c ks) = true.
+Proof. exact dump_events_wf. Qed.
+
+(* save followed by open is the identity, DOWN TO THE BYTES OF THE XML DOCUMENT: the statement of
+   c03_save_open_identity with the text layer instantiated by the model of xml-rs (render_xml, lex_xml)
+   and the hypothesis about the text layer replaced by the checkable domain text_content_ok *)
+Theorem c03_save_open_identity_xml_text :
+  forall (sha256 sha512 : bytes -> bytes) (hmac256 : bytes -> bytes -> bytes)
+         (kdf : kdfcfg -> bytes -> bytes -> Kdbx4.res bytes)
+         (outer_enc outer_dec : ocipher -> bytes -> bytes -> bytes -> Kdbx4.res bytes)
+         (compress decompress : compression -> bytes -> Kdbx4.res bytes)
+         (gzip : bytes -> bytes) (gunzip : bytes -> option bytes)
+         (keystream : icipher -> bytes -> bytes)
+         (other_formats : dbversion -> bytes -> Kdbx4.res (list bytes) -> outcome ferr database),
+  (forall m, length (sha256 m) = 32%nat) ->
+  (forall k m, length (hmac256 k m) = 32%nat) ->
+  (forall c key iv p ct, outer_enc c key iv p = Ok ct -> outer_dec c key iv ct = Ok p) ->
+  (forall z p c, compress z p = Ok c -> decompress z c = Ok p) ->
+  (forall c k, bytes_ok (keystream c k) = true) ->
+  forall (cfg : config) (atts : list attachment) (c : content) (d : draws) (vd : vdict)
+         (elements : Kdbx4.res (list bytes)) (file : bytes) (minor : N),
+  let db := mkDb cfg atts c in
+  c_version cfg = KDB4 minor -> minor < 2 ^ 16 ->
+  draws_ok cfg d = true ->
+  Permutation vd (vd_of_kdf (c_kdf cfg) (d_kdf_seed d)) ->
+  kdf_params_ok (c_kdf cfg) = true ->
+  atts_ok atts = true ->
+  wf_content gzip gunzip c = true ->
+  text_content_ok gzip c = true ->
+  save_model sha256 sha512 hmac256 kdf outer_enc compress gzip render_xml keystream db d vd elements = Ok file ->
+  N.of_nat (length file) < 2 ^ 32 ->
+  open_model sha256 sha512 hmac256 kdf outer_dec decompress gunzip lex_xml keystream other_formats file elements = Ok db.
+Proof. exact save_open_identity_text. Qed.
